@@ -36,6 +36,8 @@ type C05Op struct {
 }
 
 type C05Case struct {
+	// Big: when > 0 the first database is blown up to this many entries (answers longer than 100 / 1000 results)
+	Big      int      `json:"big,omitempty"`
 	DBs      [][]Cmd  `json:"dbs"`
 	Queries  []string `json:"queries"`
 	Options  []Opts   `json:"options"`
@@ -71,6 +73,9 @@ func genC05(rt *rapid.T) C05Case {
 	ndb := rapid.IntRange(1, 3).Draw(rt, "ndb")
 	for i := 0; i < ndb; i++ {
 		c.DBs = append(c.DBs, genDB(rt, 14))
+	}
+	if rapid.IntRange(0, 39).Draw(rt, "big") == 20 {
+		c.Big = rapid.SampledFrom([]int{130, 300, 1100}).Draw(rt, "bign")
 	}
 	nq := rapid.IntRange(1, 5).Draw(rt, "nq")
 	for i := 0; i < nq; i++ {
@@ -170,6 +175,10 @@ func optDiff(a, b Opts) []string {
 
 func runC05(c C05Case) *Outcome {
 	o := &Outcome{Probes: map[string]int{}}
+	if c.Big > 0 && len(c.DBs[0]) > 0 {
+		c.DBs = append([][]Cmd{blowUp(c.DBs[0], c.Big)}, c.DBs[1:]...)
+		o.Probes["c05.big_database"] = 1
+	}
 	simrt.SetOrderCanonical()
 	simtime.Install(simtime.Epoch)
 	defer simtime.Uninstall()
